@@ -51,6 +51,44 @@ def solvable(puzzle):
     return transpositions % 2 == dist % 2
 
 
+_DIST = {}
+
+
+def _code(flat):
+    c = 0
+    for x in flat:
+        c = c * 16 + int(x)
+    return c
+
+
+def distance_table(n):
+    """Breadth-first distances to the goal over the whole reachable class (n <= 3 only: 12 / 181 440 states)."""
+    if n not in _DIST:
+        g = tuple(int(x) for x in goal(n).reshape(-1))
+        dist = {_code(g): 0}
+        frontier = [g]
+        while frontier:
+            nxt = []
+            for st in frontier:
+                d = dist[_code(st)]
+                z = st.index(0)
+                r, c = divmod(z, n)
+                for dr, dc in DELTA:
+                    r2, c2 = r + dr, c + dc
+                    if 0 <= r2 < n and 0 <= c2 < n:
+                        z2 = r2 * n + c2
+                        l = list(st)
+                        l[z], l[z2] = l[z2], 0
+                        t = tuple(l)
+                        k = _code(t)
+                        if k not in dist:
+                            dist[k] = d + 1
+                            nxt.append(t)
+            frontier = nxt
+        _DIST[n] = dist
+    return _DIST[n]
+
+
 class M(Model):
     ENV = "SlidingTilePuzzle"
     DETERMINISTIC_CONFIGS = {"g3m0t2d"}  # zero random moves: always the solved puzzle
@@ -172,3 +210,26 @@ class M(Model):
             out.append(("action_mask is not 'the empty tile stays on the board'",
                         f"mask {np.asarray(obs.action_mask).tolist()} empty tile {self._blank(s)}"))
         return out
+
+    # ---- constructive moves for the 'solve' plan mode
+    def solve_action(self, s, r=0):
+        """A move on a shortest path to the goal (2x2, 3x3: exact distances; larger grids: no solver)."""
+        if self.n > 3:
+            return None
+        p = np.asarray(s.puzzle).astype(np.int64)
+        bl = blank(p)
+        if bl is None or sorted(p.reshape(-1).tolist()) != list(range(self.n * self.n)):
+            return None
+        dist = distance_table(self.n)
+        here = dist.get(_code(p.reshape(-1)))
+        if here is None or here == 0:
+            return None
+        for a in [(int(r) + i) % 4 for i in range(4)]:
+            nr, nc = bl[0] + DELTA[a][0], bl[1] + DELTA[a][1]
+            if 0 <= nr < self.n and 0 <= nc < self.n:
+                q = p.copy()
+                q[bl] = p[nr, nc]
+                q[nr, nc] = 0
+                if dist.get(_code(q.reshape(-1)), 10**9) == here - 1:
+                    return a
+        return None
